@@ -36,11 +36,32 @@
 //   - pom.xml: adjacent character-data/CDATA runs are compared as one concatenated string;
 //     <a/> and <a></a> are the same; attribute quoting style; encoding of character
 //     references. Attribute order is compared (the property says "same sequence").
+//   - pom.xml: a property may only change where it is in effect for a targeted dependency (own
+//     profile first, then project level child -> parent -> grandparent); which of several
+//     equivalent places is patched is otherwise free.
 //   - Updates to the <parent> reference itself are not generated (a local parent with a
 //     changed version is no longer found locally; re-reading would need the network).
-//   - Documents in which one groupId:artifactId is declared in two places, dependencies
+//   - Documents in which one groupId:artifactId:type:classifier is declared in two places, dependencies
 //     without <version>, import-scoped BOMs, active-by-default profiles, remote parents:
 //     not generated (addressing of such updates is ambiguous in result.PackageUpdate).
+//   - package.json documents in which two keys of devDependencies/optionalDependencies resolve
+//     to one real package (alias + real name) are not generated: Read itself is map-order
+//     dependent there, which is not a writer matter.
+//
+// Cause keys (root causes, not inputs):
+//
+//	npm:unescaped-key-path                   failure disappears when keys with gjson/sjson path characters are renamed
+//	npm:silent-non-application, npm:wrong-value-written, npm:untargeted-entry-changed,
+//	npm:bytes-outside-targets-changed, npm:noop-not-identical, npm:reread-mismatch, npm:panic:<site>
+//	pom:property-patch-bounds-panic          slice-bounds panic inside generatePropertyPatchesAux
+//	pom:parent-profile-origin-join           dependency inside a profile of a local parent not patched
+//	pom:property-defined-in-other-pom        property-versioned dependency whose property lives in another local pom
+//	pom:shared-property-collateral-change    untargeted dependency changed because it shares a patched property
+//	pom:untargeted-version-element-rewritten comment/whitespace inside an untargeted <version> lost
+//	pom:nested-prefixed-attribute            xmlns:P="P" invented for a prefixed attribute of a nested element
+//	pom:silent-non-application, pom:wrong-version-written, pom:collateral-change, pom:token-diff,
+//	pom:noop-token-diff, pom:reread-mismatch, pom:output-unreadable, pom:file-not-written, pom:panic:<site>
+//	harness:*                                the harness' own self-checks (generator/model disagree with Read)
 package main
 
 import (
@@ -65,9 +86,11 @@ import (
 // updSpec addresses one requirement of the manifest (by the name Read reports, plus the
 // npm alias key) and gives the requested new version.
 type updSpec struct {
-	Name    string `json:"name"`
-	KnownAs string `json:"knownAs,omitempty"`
-	To      string `json:"to"`
+	Name         string `json:"name"`
+	KnownAs      string `json:"knownAs,omitempty"`      // npm alias key
+	ArtifactType string `json:"artifactType,omitempty"` // maven <type> when not jar
+	Classifier   string `json:"classifier,omitempty"`   // maven <classifier>
+	To           string `json:"to"`
 }
 
 // caseSpec is one self-contained case: files, the manifest to read, the updates.
@@ -103,14 +126,14 @@ func (silentLogger) Debug(...any)          {}
 var stopProf = func() {}
 
 var (
-	tmpRoot     string
-	dirSeq      atomic.Int64
-	writeErrs   atomic.Int64
-	npmCases    atomic.Int64
-	pomCases    atomic.Int64
-	noopCases   atomic.Int64
-	errMu       sync.Mutex
-	errEx       []string
+	tmpRoot   string
+	dirSeq    atomic.Int64
+	writeErrs atomic.Int64
+	npmCases  atomic.Int64
+	pomCases  atomic.Int64
+	noopCases atomic.Int64
+	errMu     sync.Mutex
+	errEx     []string
 )
 
 func newCaseDir() string {
@@ -155,7 +178,7 @@ func caseKey(cs *caseSpec) string {
 		fmt.Fprintf(h, "%s\x00%s\x00", p, cs.Files[p])
 	}
 	for _, u := range cs.Updates {
-		fmt.Fprintf(h, "%s\x01%s\x01%s\x02", u.Name, u.KnownAs, u.To)
+		fmt.Fprintf(h, "%s\x01%s\x01%s\x01%s\x01%s\x02", u.Name, u.KnownAs, u.ArtifactType, u.Classifier, u.To)
 	}
 	return hex.EncodeToString(h.Sum(nil)[:12])
 }
@@ -234,7 +257,7 @@ func recordSamples(r *ev.Run, npmDocs []*npmDoc, pomDocs []*pomDoc) {
 		if err != nil || len(m.deps) == 0 {
 			continue
 		}
-		cs := &caseSpec{Kind: "pom", Files: files, Main: chain[0], Chain: chain, Family: pomDocs[i].Family, Updates: []updSpec{{Name: m.deps[len(m.deps)-1].name(), To: pomTargets[0]}}}
+		cs := &caseSpec{Kind: "pom", Files: files, Main: chain[0], Chain: chain, Family: pomDocs[i].Family, Updates: []updSpec{m.deps[len(m.deps)-1].upd(pomTargets[0])}}
 		o := runCase(cs)
 		r.Sample(map[string]any{"kind": "pom", "family": cs.Family, "options": fmt.Sprintf("%+v", pomDocs[i].Opt), "files": chain, "updates": cs.Updates, "discrepancies": len(o.discs), "write_error": o.writeErr})
 	}
@@ -246,6 +269,9 @@ func fmtUpdates(us []updSpec) string {
 		n := u.Name
 		if u.KnownAs != "" {
 			n = u.KnownAs + "=>" + n
+		}
+		if u.ArtifactType != "" || u.Classifier != "" {
+			n += "|" + u.ArtifactType + "|" + u.Classifier
 		}
 		p = append(p, n+"->"+u.To)
 	}
@@ -371,7 +397,7 @@ func main() {
 	r.Set("cases_per_family", fams)
 	r.Set("write_error_examples", append([]string{}, errEx...))
 	r.Assume("a Write that returns a non-nil error is accepted (the property forbids only silent non-application)")
-	r.Assume("each groupId:artifactId is declared once per generated pom.xml family; updates never target the <parent> reference")
+	r.Assume("each groupId:artifactId:type:classifier is declared once per generated pom.xml family; updates never target the <parent> reference")
 	r.Assume("Maven registry is never contacted: only local parents are generated")
 	cleanup()
 	stopProf()
